@@ -40,7 +40,10 @@ RULE = ('Every set partition of n observations into condition labels x label nam
         'datasets with equal / overlapping / disjoint condition sets, with and without condition '
         'descriptor); all matrices over {0,1,2}^(n x P) for small n, P (every tie / zero pattern); '
         'movies: every partition of the time points into bins (both bin orders) and no binning, '
-        'ascending and descending time values; sequences on ONE dataset object: every ordered pair '
+        'ascending and descending time values; a menu of 8 time axes (affine images of one axis: '
+        'small floats, ints, fractions, negative, 250000+k, unix-like 1.6963e9+0.5k, -1e6+0.25k, 1e-9 '
+        'steps) x storage order (ascending, descending, scrambled) x every binning, and the same '
+        'menu cycled through the main movie sweep; sequences on ONE dataset object: every ordered pair '
         'of method configurations (first call as single dataset / one-element list / same object '
         'twice in a list; movies likewise) and chains of all configurations, each result judged '
         'against the originally supplied data and the inputs required bit-identical after every '
@@ -78,6 +81,8 @@ BOUNDS = {
               'tierA': '{0,1,2}^(n x P): (2,1..3) (3,1..2) (4,1), every partition, 6 method configurations',
               'movie': {'n_time': [1, 3], 'n_obs': [1, 3], 'n_channel': [1, 2, 3],
                         'binnings': 'none + every partition of the time points, both bin orders'},
+              'time_axes': '8 axes x 3 storage orders x every binning of n_time 1..3 x 7 label structures x 4 '
+                           'methods (row-per-observation movies on a quarter)',
               'sequences_on_one_object': 'n_obs 2..3, n_channel 2..3, float and int, descriptor and None: all '
                                          '16x16 ordered pairs of method configurations (x3 first-call forms on '
                                          'one structure), 8 chains of 16 calls; movies n_time 2: 8x8 pairs'},
@@ -91,6 +96,36 @@ BOUNDS = {
 }
 
 TIMES = [0.0, 1.0, 3.0, 7.0]          # all subset means are distinct
+# Menu of time axes: affine images offset + step * TIMES (so all subset means stay distinct), i.e.
+# the same frames under different clocks.  'int' is an integer-typed descriptor.
+TIME_AXES = {
+    'small': (0.0, 1.0), 'int': (0, 1), 'frac': (0.0, 0.1), 'negative': (2.0, -1.5),
+    'offset_ms': (250000.0, 1.0),        # sample clock in ms, 250 s into a recording
+    'unix': (1696300000.0, 0.5),         # unix time stamps, half-second steps
+    'large_neg': (-1000000.0, 0.25),
+    'tiny': (0.0, 1e-9),                 # sub-nanosecond steps
+}
+AXIS_ORDER = ['small', 'offset_ms', 'int', 'unix', 'frac', 'tiny', 'negative', 'large_neg']
+AXIS_CLASS = {'offset_ms': 'large-offset', 'unix': 'large-offset', 'large_neg': 'large-offset',
+              'tiny': 'tiny-step'}
+SCRAMBLE = {1: [0], 2: [1, 0], 3: [1, 2, 0], 4: [2, 0, 3, 1]}
+
+
+def _time_axis(name, nt, order):
+    """time stamps of the nt time points in storage order (Python numbers)"""
+    off, step = TIME_AXES[name]
+    vals = [off + step * (int(t) if name == 'int' else t) for t in TIMES[:nt]]
+    if order == 'desc':
+        vals = vals[::-1]
+    elif order == 'scr':
+        vals = [vals[i] for i in SCRAMBLE[nt]]
+    return vals
+
+
+def _same_time(a, b):
+    """time labels agree to rounding (1e-12 relative; no absolute slack, steps may be tiny)"""
+    a, b = float(a), float(b)
+    return abs(a - b) <= 1e-12 * max(abs(a), abs(b))
 
 
 # ----------------------------------------------------------------------------- generators
@@ -273,6 +308,8 @@ def _judge(ctx, case, op, form, mconf, rdms, models, keymode, r_to_model=None):
     vcls = '%s,%s' % (form.split('(')[0], _mtag(mconf))
     if op == 'calc_rdm_movie':
         scls, vcls = form, _mtag(mconf)
+        if AXIS_CLASS.get(case.get('taxis')):
+            vcls += ',time-axis=' + AXIS_CLASS[case['taxis']]
     method = mconf['method']
 
     def fail(kind, msg, value=False):
@@ -590,6 +627,8 @@ def _movie_cls(case):
         flags.append('time-descriptor=list')
     if case.get('bins') is not None and case.get('binrep') == 'lists':
         flags.append('bins=list-of-lists')
+    if AXIS_CLASS.get(case.get('taxis')):
+        flags.append('time-axis=' + AXIS_CLASS[case['taxis']])
     return ','.join(flags) or 'general'
 
 
@@ -603,9 +642,7 @@ def _run_movie(case, ctx):
     labels = [names[g] for g in part]
     extra = [_extra_of(lab) for lab in labels] if case['extra'] == 'const' else None
     data = _fill(ctx.seed, (n, n_ch, nt), 'float', case['fill'], poisson)
-    times = TIMES[:nt]
-    if case['torder'] == 'desc':
-        times = times[::-1]
+    times = _time_axis(case.get('taxis', 'small'), nt, case['torder'])
     groups = case['bins'] if case['bins'] is not None else [[t] for t in range(nt)]
     prec = _precision(case.get('prec', 'none'), n_ch, ctx.seed) if case['method'] == 'mahalanobis' else None
     opts = _ref_opts(dict(case, rm=False), prec)
@@ -646,7 +683,7 @@ def _run_movie(case, ctx):
         else:
             r_to_model = []
             for r in range(rdms.n_rdm):
-                hit = [i for i, m in enumerate(models) if close(tvals[r], m['time'], 1e-9)]
+                hit = [i for i, m in enumerate(models) if _same_time(tvals[r], m['time'])]
                 r_to_model.append(hit[0] if len(hit) == 1 else None)
             if None in r_to_model or sorted(r_to_model) != list(range(len(models))):
                 ctx.fail('calc_rdm_movie|%s|rdm-time-label' % form, case,
@@ -740,7 +777,7 @@ def _run_sequence(case, ctx):
                 if tvals is not None and rdms.n_rdm == len(models):
                     r_to_model = []
                     for r in range(rdms.n_rdm):
-                        hit = [i for i, m in enumerate(models) if close(tvals[r], m['time'], 1e-9)]
+                        hit = [i for i, m in enumerate(models) if _same_time(tvals[r], m['time'])]
                         r_to_model.append(hit[0] if len(hit) == 1 else None)
                     if None in r_to_model or sorted(r_to_model) != list(range(len(models))):
                         r_to_model = None
@@ -879,6 +916,10 @@ def shards(tier, seed):
                     for start in (range(0, ntc, 3) if nt >= 4 else [None]):
                         out.append({'kind': 'movie', 'nt': nt, 'n': n, 'P': n_ch, 'torder': torder,
                                     'tcs': None if start is None else [start, min(ntc, start + 3)]})
+    # F2: time-axis menu x storage order x every binning (the frames must not depend on the clock)
+    for taxis in AXIS_ORDER:
+        for torder in ('asc', 'desc', 'scr'):
+            out.append({'kind': 'taxis', 'taxis': taxis, 'torder': torder})
     # G: sequences of calls on one dataset object (inputs must survive, results must not depend on history)
     for n in ((2, 3, 4) if th else (2, 3)):
         for n_ch in ((1, 2, 3) if th else (2, 3)):
@@ -1013,7 +1054,7 @@ def run_shard(shard, ctx):
                 for tag in ('asc', 'desc', 'str'):
                     idx += 1
                     base = {'kind': 'movie', 'n': n, 'P': n_ch, 'nt': nt, 'torder': shard['torder'],
-                            'bins': bins, 'binrep': 'arrays', 'tcont': 'nd', 'part': part, 'naming': tag,
+                            'taxis': AXIS_ORDER[idx % len(AXIS_ORDER)], 'bins': bins, 'binrep': 'arrays', 'tcont': 'nd', 'part': part, 'naming': tag,
                             'container': 'list' if idx % 2 else 'nd', 'extra': 'const' if idx % 3 else 'none',
                             'fill': 0}
                     for mi, mconf in enumerate(mconfs):
@@ -1029,6 +1070,31 @@ def run_shard(shard, ctx):
                         run_case(dict(base, desc='cond', tcont='list', **euc), ctx)
                         if bins is not None:
                             run_case(dict(base, desc='cond', binrep='lists', **euc), ctx)
+    elif kind == 'taxis':
+        structs = [(3, 2, part) for part in _partitions(3)] + [(2, 3, part) for part in _partitions(2)]
+        if th:
+            structs += [(4, 2, part) for part in _partitions(4)[1::2]] + [(3, 1, [0, 1, 2])]
+        meths = [{'method': 'euclidean', 'rm': False}, {'method': 'correlation', 'rm': False},
+                 {'method': 'mahalanobis', 'prec': 'full', 'rm': False},
+                 {'method': 'poisson', 'prior': [2, 0.5], 'rm': False}]
+        idx = 0
+        for nt in range(1, 5 if th else 4):
+            if shard['torder'] != 'asc' and nt == 1:
+                continue
+            for bins in _time_configs(nt):
+                for n, n_ch, part in structs:
+                    idx += 1
+                    base = {'kind': 'movie', 'n': n, 'P': n_ch, 'nt': nt, 'torder': shard['torder'],
+                            'taxis': shard['taxis'], 'bins': bins, 'binrep': 'arrays',
+                            'tcont': 'list' if idx % 4 == 0 else 'nd', 'part': part,
+                            'naming': ('desc', 'str', 'asc')[idx % 3], 'container': 'list' if idx % 2 else 'nd',
+                            'extra': 'const' if idx % 3 else 'none', 'fill': 0}
+                    for mi, mconf in enumerate(meths):
+                        if mconf['method'] == 'correlation' and n_ch < 2:
+                            continue
+                        run_case(dict(base, desc='cond', **mconf), ctx)
+                        if th or mi == idx % 4:
+                            run_case(dict(base, desc=None, **mconf), ctx)
     elif kind == 'sequence':
         n, n_ch = shard['n'], shard['P']
         movie = shard.get('nt') is not None
